@@ -318,6 +318,12 @@ func checkRepr(c reprCase) evid.Outcome {
 		if err != nil || string(mt) != hex.EncodeToString(c.Bytes) || cur().String() != string(mt) {
 			return evid.Fail("%s: MarshalText=%q err=%v String=%q want %q", c.Type, mt, err, cur().String(), hex.EncodeToString(c.Bytes))
 		}
+		// texts of the wrong length that begin with (or are the beginning of) the right text
+		for _, bad := range []string{text + "0", text + "f", text + "\n", text + " ", text + "zz", text + "," + text, text[:len(text)-1], " " + text, text + text[len(text)-2:]} {
+			if err := unText([]byte(bad)); err == nil {
+				return evid.Fail("%s: UnmarshalText accepted %q, which is not the %d hexadecimal digits (optional 0x) of a %s", c.Type, bad, 2*want, c.Type)
+			}
+		}
 	}
 	// binary (byte reversed)
 	err = unBin(reverse(c.Bytes))
@@ -353,9 +359,6 @@ func checkRepr(c reprCase) evid.Outcome {
 		dv, err := value()
 		if b, ok := dv.([]byte); err != nil || !ok || !bytes.Equal(b, c.Bytes) {
 			return evid.Fail("%s: Value()=%v err=%v", c.Type, dv, err)
-		}
-		if scan(string(c.Bytes)) == nil {
-			return evid.Fail("%s: Scan accepted a string", c.Type)
 		}
 	}
 	cls := c.Type + "/valid"
@@ -398,6 +401,6 @@ func TestProp(t *testing.T) {
 		400000, 8000000, genMember, checkMember)
 
 	evid.Rapid(r, t, "representations",
-		"EUI64/DevAddr/NetID/AES128Key of correct length and of wrong lengths 0..20 (random bytes; 3/10 all-zero, all-ones or with leading zero bytes): text (hex, optional 0x, upper/lower case), binary (byte reversed), Scan/Value; wrong lengths must be rejected by all three decoders. Every case is non-trivial.",
+		"EUI64/DevAddr/NetID/AES128Key of correct length and of wrong lengths 0..20 (random bytes; 3/10 all-zero, all-ones or with leading zero bytes): text (hex, optional 0x, upper/lower case), binary (byte reversed), Scan/Value; wrong lengths must be rejected by all three decoders, and so must the right text followed or preceded by further characters (a digit, a byte pair, a newline, a blank, a comma and a second identifier) or cut by one digit. Every case is non-trivial.",
 		200000, 4000000, genRepr, checkRepr)
 }
